@@ -220,6 +220,13 @@ ares_status_t ares_array_insert_at(void **elem_ptr, ares_array_t *arr,
     return status;
   }
 
+  /* An empty array has nothing to preserve, restart at the beginning of the
+   * allocation.  Otherwise an array drained from the front can end up with
+   * offset == alloc_cnt and reject every insert. */
+  if (arr->cnt == 0) {
+    arr->offset = 0;
+  }
+
   /* Shift if we have memory but not enough room at the end */
   if (arr->cnt + 1 + arr->offset > arr->alloc_cnt) {
     status = ares_array_move(arr, 0, arr->offset);
